@@ -9,7 +9,7 @@ RULE = ("bridge_peg: L1 histories of lock / burn / claim / pause / blacklist / f
         "fee receiver unset and set (also set to the sender, to module accounts), ceth burned with the receiver unset, ceth locked with the receiver "
         "unset (duplicate-denomination panic), fees below / at / above the floor and of extreme sign and size (-1, -2^63, -2^63-1, -10^19, -amount, 2^63, 2^64, 2^255; also with the fee token itself burned, no fee receiver, the module holding earlier fees), amounts above the balance, invalid denominations, chain ids 0 and "
         "negative, receivers in eight spellings (EIP-55, lower, upper, un-prefixed, 0X, EIP-55 with 1 / 2 / half of its letters flipped) and non-addresses, blacklists with several spellings; "
-        "claim symbols differing in case only / prefixes of one another / starting with the pegged prefix (usdt USDT Usdt usd usdtx cusdt …), each minted denomination then locked and burned by its holder; 8 executions per history. Judged on the implementation's observations: Spec.C07.pegStep (payable from the pre-balances with a non-negative fee, balances, supply, exactly one event), gateOK "
+        "worlds whose ethbridge genesis lists 3-6 peggy tokens in arrival (unsorted) order through the real InitGenesis, holders locking and burning every listed token; claim symbols differing in case only / prefixes of one another / starting with the pegged prefix (usdt USDT Usdt usd usdtx cusdt …), each minted denomination then locked and burned by its holder; 8 executions per history. Judged on the implementation's observations: Spec.C07.pegStep (payable from the pre-balances with a non-negative fee, balances, supply, exactly one event), gateOK "
         "(pause as the RAW STORE flag says — also after multi-message transactions whose un-pause is discarded with a failing later message, same block and next —, address-level blacklist, native/pegged where pegged = in the stored list OR minted by a lock credit earlier in the history; burn of a minted token never refused as native), peggyRegOK (after a SUCCESS claim the stored list = old list + exactly the credited denomination), supplyOK (supply = genesis + credits - locks - burns per denomination after every message). "
         "non-trivial = distinct accepted message, or a gate chk with the bridge paused or the receiver listed")
 TRUSTED_BASE = [
